@@ -9,7 +9,7 @@ import random
 from simkit import gen, model
 from simkit.harness import HarnessError, World
 
-TIERS = {"C18": {"quick": 1200, "thorough": 20000}}
+TIERS = {"C18": {"quick": 1200, "thorough": 10000}}
 LEVEL = {"C18": "exploration"}
 RULE = {
     "C18": "scenario = index of 1-3 outputs (directory objects, lazily loaded, or single files; "
